@@ -7,7 +7,7 @@
    driver script per reachable state. *)
 EXTENDS Gossip, Json
 
-CONSTANTS U, MaxOps, FailCs, FailNs, PruneTs, WithReload
+CONSTANTS U, MaxOps, FailCs, FailNs, PruneTs, WithReload, RgsSnaps
 
 VARIABLES ptc, ptp, ptn, hist
 mvars == <<avars, ptc, ptp, ptn, hist>>
@@ -61,6 +61,11 @@ Universe ==
                CU(2, 1, 100, 3, TRUE, 3, 500000), CU(3, 0, 100, 3, TRUE, 4, 500000),
                CU(3, 0, 100, 4, TRUE, 5, 500000), NA(3, 100, 3, 1), NA(4, 200, 4, 2)}]
 
+    [] U = 7 ->  \* P2P gossip with a UTXO source interleaved with rapid-gossip-sync snapshots
+       [lookup |-> TRUE,
+        M |-> {CAok(1, 1, 2), CAok(2, 1, 3), CU(1, 0, 100, 1, TRUE, 1, 500000),
+               CU(1, 0, 300, 1, TRUE, 2, 500000), CU(2, 1, 200, 3, TRUE, 3, 500000)}]
+
 M == Universe.M
 
 MCInit ==
@@ -79,9 +84,20 @@ CACode(m) ==
   ELSE IF m.c \in Chs(G) THEN (IF lookup THEN "replace" ELSE "none")
   ELSE "add"
 Code(m) == IF m.k = "ca" THEN CACode(m) ELSE CHOOSE o \in Allowed(m) : TRUE
-CodeR(t) ==
-  LET g1 == Dropped(G, t) IN
+CodeRFrom(g, t) ==
+  LET g1 == Dropped(g, t) IN
   {c \in Chs(g1) : (~g1.ch[c].d0.has \/ ~g1.ch[c].d1.has) /\ AnnOld(g1, c, t)}
+CodeR(t) == CodeRFrom(G, t)
+
+(* rapid-gossip-sync snapshots (unsigned): announcement of scid 2 between nodes 1 and 3 and
+   updates for scids 1 and 2 stamped 150 resp. 250; the second one ends with a pruning pass *)
+RU(c, d, p, hmax) == [c |-> c, d |-> d, en |-> (p % 2 = 1), cltv |-> 10 + p, hmin |-> p, hmax |-> hmax,
+                      fb |-> 100 + p, fp |-> 200 + p]
+Snap(i) ==
+  IF i = 1 THEN [ver |-> 1, ts |-> 150, anns |-> <<[c |-> 2, n1 |-> 1, n2 |-> 3, cap |-> -1]>>,
+                 upds |-> <<RU(1, 0, 8, 500000), RU(2, 1, 9, 500000)>>, prune |-> FALSE, t |-> 0]
+  ELSE [ver |-> 2, ts |-> 250, anns |-> <<[c |-> 2, n1 |-> 1, n2 |-> 3, cap |-> 1000], [c |-> 3, n1 |-> 2, n2 |-> 3, cap |-> -1]>>,
+        upds |-> <<RU(1, 1, 10, 500000), RU(2, 0, 11, 1000001)>>, prune |-> TRUE, t |-> 150]
 
 MDeliver == \E m \in M :
   /\ Deliver(m, Code(m))
@@ -112,7 +128,16 @@ MReload ==
   /\ ptc' = {} /\ ptp' = {} /\ ptn' = {}
   /\ hist' = Append(hist, [op |-> "reload"])
 
-MCNext == MDeliver \/ MFailC \/ MFailN \/ MPrune \/ MReload
+MRgs == \E i \in RgsSnaps :
+  LET sn == Snap(i)
+      g2 == RgsUpds(RgsAnns(G, sn.anns, sn.ts), sn.upds, sn.ts)
+      R == IF sn.prune THEN CodeRFrom(g2, sn.t) ELSE {} IN
+  /\ Rgs(sn.ts, sn.anns, sn.upds, sn.prune, sn.t, R)
+  /\ IF sn.prune THEN ptc' = {} /\ ptn' = {} /\ ptp' = ptp \cup R ELSE UNCHANGED <<ptc, ptp, ptn>>
+  /\ hist' = Append(hist, [op |-> "rgs", ver |-> sn.ver, ts |-> sn.ts, anns |-> sn.anns, upds |-> sn.upds,
+                           prune |-> sn.prune, t |-> sn.t])
+
+MCNext == MDeliver \/ MFailC \/ MFailN \/ MPrune \/ MReload \/ MRgs
 MCSpec == MCInit /\ [][MCNext]_mvars
 
 Bound == Len(hist) <= MaxOps
